@@ -167,7 +167,7 @@ type BitAndFunction struct {
 
 func NewBitAndFunction() *BitAndFunction {
 	return &BitAndFunction{
-		BaseFunction: NewBaseFunction("bitand", TypeMath, "数学函数", "计算两个整数的按位与", 2, 2),
+		BaseFunction: NewBaseFunctionWithAliases("bitand", TypeMath, "数学函数", "计算两个整数的按位与", 2, 2, []string{"bit_and"}),
 	}
 }
 
@@ -194,7 +194,7 @@ type BitOrFunction struct {
 
 func NewBitOrFunction() *BitOrFunction {
 	return &BitOrFunction{
-		BaseFunction: NewBaseFunction("bitor", TypeMath, "数学函数", "计算两个整数的按位或", 2, 2),
+		BaseFunction: NewBaseFunctionWithAliases("bitor", TypeMath, "数学函数", "计算两个整数的按位或", 2, 2, []string{"bit_or"}),
 	}
 }
 
@@ -221,7 +221,7 @@ type BitXorFunction struct {
 
 func NewBitXorFunction() *BitXorFunction {
 	return &BitXorFunction{
-		BaseFunction: NewBaseFunction("bitxor", TypeMath, "数学函数", "计算两个整数的按位异或", 2, 2),
+		BaseFunction: NewBaseFunctionWithAliases("bitxor", TypeMath, "数学函数", "计算两个整数的按位异或", 2, 2, []string{"bit_xor"}),
 	}
 }
 
@@ -248,7 +248,7 @@ type BitNotFunction struct {
 
 func NewBitNotFunction() *BitNotFunction {
 	return &BitNotFunction{
-		BaseFunction: NewBaseFunction("bitnot", TypeMath, "数学函数", "计算整数的按位非", 1, 1),
+		BaseFunction: NewBaseFunctionWithAliases("bitnot", TypeMath, "数学函数", "计算整数的按位非", 1, 1, []string{"bit_not"}),
 	}
 }
 
